@@ -250,7 +250,7 @@ fn run_flatten(c: &mut dyn Choices, ctx: &Ctx) -> Outcome {
     Ok(tr) => {
       let act = crate::props::c04::trace_tl(tr);
       let mut ok = act == expected;
-      for o in [Opts { skip_last_lazy: true, ..Opts::default() }, Opts { take0_immediate: true, ..Opts::default() }, Opts { skip_last_lazy: true, take0_immediate: true, ..Opts::default() }] {
+      for o in [Opts { skip_last_lazy: true, ..Opts::default() }, Opts { take0_immediate: true, ..Opts::default() }, Opts { skip_last_lazy: true, take0_immediate: true, ..Opts::default() }, Opts { take0_at_first_item: true, ..Opts::default() }, Opts { skip_last_lazy: true, take0_at_first_item: true, ..Opts::default() }] {
         if !ok && model::eval(&case.node, &inputs, o).map_or(false, |e| e == act) {
           ok = true;
         }
